@@ -114,7 +114,9 @@ func genInbox(r *Rng, prop string, k int) *RunSpec {
 		return J{"type": "Note", "id": fmt.Sprintf("https://%s/n/%d", host, 20+i), "attributedTo": st.Dave, "content": fmt.Sprint("v", i)}
 	}
 	hostVariant := func() string {
-		switch r.Intn(8) {
+		switch r.Intn(9) {
+		case 8:
+			return hostR + ":443" // the scheme's default port written out: still another host string
 		case 0:
 			return hostR + ":8443"
 		case 1:
